@@ -1077,6 +1077,7 @@ func runC07(c *core.Ctx) core.Meta {
 	checkHalfRegisterCases(c)
 	checkInitWritesEachRegisterOnce(c)
 	checkEmuRegisterFileSizes(c)
+	checkReleaseClearsAllLanes(c)
 	return core.Meta{Level: "other",
 		Explanation: "Aliasing shapes of the architectural register stores decided statically: half-register merges (mask/shift agreement, LO/HI context) and half reads in all five accessors, the (register kind, count) coverage of the five accessors evaluated as decision tables and compared as siblings, vector-register strides of emulation versus the timing register file and its builder constants, the multi-register width rule, and the range cleared at wavefront release.",
 		NotDecided:  "read-after-write equality over all access sequences (value level); bounds of register indices; SGPR/VGPR allocation offsets",
